@@ -368,9 +368,17 @@ func (x *runner) runMut(s *Spec) string {
 		}()
 		tb, tm = bt.Hash(), mt.Hash()
 	}()
-	if tb == tm {
+	// bytes 0..3 of a Quai tx hash are overwritten with location bits derived from the sender, so
+	// only bytes 4.. bind the content: they must differ (as must the hash under an explicit location)
+	if bytes.Equal(tb[4:], tm[4:]) {
 		x.fail("txhash/unchanged/"+s.Field, "tx.Hash() (the pool's sender-cache key) does not cover "+s.Field, s)
 	}
+	func() {
+		defer func() { recover() }()
+		if s.Base.build().Hash(0, 0) == s.Tx.build().Hash(0, 0) {
+			x.fail("txhash/unchanged/"+s.Field, "tx.Hash(location) does not cover "+s.Field, s)
+		}
+	}()
 	x.rep.Nontrivial("mut/" + s.Field + "/" + o.Class)
 	return fmt.Sprintf("CRecover %d %s %s %s %s", s.ID, s.Tx.coqQ(), s.SgChain, recOf(o), o.coq())
 }
